@@ -531,6 +531,8 @@ type PullResult struct {
 	// Det: the model leaves the implementation no freedom in this pull (no
 	// 'may' candidates, not truncated): its result is a function of the history
 	Det bool
+	// Uncertain: some candidate's eligibility is inside a time margin / unknown
+	Uncertain bool
 }
 
 func jsonEqual(a, b []byte) bool {
@@ -607,6 +609,7 @@ func (m *Model) Pull(name string, max int, now time.Time, resp []*pubsubpb.Recei
 	for _, c := range cl {
 		if c.c == clMay || c.c == clDLMaybe {
 			res.Det = false
+			res.Uncertain = true
 		}
 	}
 	if len(resp) > max && !m.Session {
